@@ -527,6 +527,20 @@ def long_outlay_families(n):
             if fin.one_root_flows(v)]
 
 
+def spread_families(n):
+    """Outlay followed by returns whose sizes differ by many orders of
+    magnitude (IRR only): the amounts grow like (1+g)^(i*w_i) with the
+    weights w_i running through 0, .7, .4, .1, .8, ..."""
+    out = []
+    for g in (0.5, 1.5, 4, 8):
+        flows = [-100.0]
+        for i in range(1, n):
+            w = ((i * 7) % 10) / 10.0
+            flows.append(round((50 + (37 * i) % 250) * (1 + g) ** (i * w), 2))
+        out.append(('spread%g#%d' % (g, n), flows))
+    return [(name, v) for name, v in out if fin.one_root_flows(v)]
+
+
 def gap_patterns(k):
     """Date-gap vectors for the long families (k gaps)."""
     return [[30] * k, [365] * k, [(1, 400)[i % 2] for i in range(k)],
@@ -636,6 +650,10 @@ def run_shard(sh, ctx):
                 for route in ('call', 'call-guess', 'f-range'):
                     run_case({'op': 'XIRR', 'flows': flows, 'gaps': gaps,
                               'name': name, 'route': route}, ctx)
+        for name, flows in spread_families(n):
+            for route in ('call-list', 'call-col', 'f-col'):
+                run_case({'op': 'IRR', 'flows': flows, 'name': name,
+                          'route': route}, ctx)
     elif s == 'npvlin':
         n = sh['n']
         for rest in itertools.product(F6, repeat=n - 1):
